@@ -285,6 +285,33 @@ impl<const ROUNDS: usize> XSalsa<ROUNDS> {
     }
 }
 
+#[cfg(feature = "verif-hooks")]
+impl<const ROUNDS: usize> State<ROUNDS> {
+    /// verification hook: set the 64-bit block counter (state words 8 and 9)
+    fn verif_set_counter64(&mut self, block: u64) {
+        self.state[8] = block as u32;
+        self.state[9] = (block >> 32) as u32;
+    }
+}
+
+#[cfg(feature = "verif-hooks")]
+impl<const ROUNDS: usize> Salsa<ROUNDS> {
+    /// verification hook: position the stream at the start of 64-bit block `block`
+    pub fn verif_set_block_counter(&mut self, block: u64) {
+        self.state.verif_set_counter64(block);
+        self.offset = 64;
+    }
+}
+
+#[cfg(feature = "verif-hooks")]
+impl<const ROUNDS: usize> XSalsa<ROUNDS> {
+    /// verification hook: position the stream at the start of 64-bit block `block`
+    pub fn verif_set_block_counter(&mut self, block: u64) {
+        self.state.verif_set_counter64(block);
+        self.offset = 64;
+    }
+}
+
 #[cfg(test)]
 mod test {
     use super::{Salsa20, XSalsa20};
